@@ -22,6 +22,13 @@ pub struct Case {
     pub blocks: Vec<BlockSpec>,
     pub ops: Vec<Op>,
     pub step: u8,
+    /// the tape asset returns at most this many bytes per read call (0 = no limit)
+    #[serde(default)]
+    pub asset_chunk: u8,
+    /// the host has read this many bytes of the file (format sniffing) before handing the asset
+    /// over; such a history starts with a rewind, which must bring the tape to its first block
+    #[serde(default)]
+    pub sniffed: u8,
 }
 
 #[derive(Clone, Debug)]
@@ -100,7 +107,16 @@ fn match_prefix(pulses: &[u64], blocks: &[Vec<u8>]) -> Result<usize, String> {
 pub fn check(c: &Case, rec: &mut Rec) -> Result<(), String> {
     let blocks: Vec<Vec<u8>> = c.blocks.iter().map(block_bytes).collect();
     let image = tap::write(&blocks);
-    let mut tap = Tap::from_asset(MemAsset::new(image)).map_err(|e| format!("from_asset: {:?}", e))?;
+    let mut asset = MemAsset::chunked(image, c.asset_chunk as usize);
+    asset.pos = (c.sniffed as usize).min(asset.data.len());
+    let mut tap = Tap::from_asset(asset).map_err(|e| format!("from_asset: {:?}", e))?;
+    if c.sniffed != 0 {
+        tap.rewind().map_err(|e| format!("rewind failed: {:?}", e))?;
+        rec.class("asset-handed-over-at-a-non-zero-offset-then-rewound");
+    }
+    if c.asset_chunk != 0 {
+        rec.class("tape-asset-with-short-reads");
+    }
     let step = c.step.clamp(1, 16) as u64;
     let mut evs: Vec<Ev> = Vec::new();
     let mut wall: u64 = 0;
@@ -271,7 +287,9 @@ pub fn case_strategy() -> impl Strategy<Value = Case> {
             ops.insert(0, Op::Play);
         }
         ops.push(Op::Advance(9_000_000));
-        Case { blocks, ops, step }
+        let asset_chunk = match (blocks.len() + ops.len()) % 4 { 0 => 1, 1 => 7, _ => 0 };
+        let sniffed = if ops.len() % 5 == 0 { (ops.len() as u8).wrapping_mul(3) | 1 } else { 0 };
+        Case { blocks, ops, step, asset_chunk, sniffed }
     })
 }
 
@@ -306,7 +324,9 @@ pub fn long_case_strategy() -> impl Strategy<Value = Case> {
             ops.insert(0, Op::Play);
         }
         ops.push(Op::Advance(20_000_000));
-        Case { blocks, ops, step }
+        let asset_chunk = match (blocks.len() + ops.len()) % 4 { 0 => 100, 1 => 129, _ => 0 };
+        let sniffed = if ops.len() % 5 == 0 { (ops.len() as u8).wrapping_mul(3) | 1 } else { 0 };
+        Case { blocks, ops, step, asset_chunk, sniffed }
     })
 }
 
@@ -321,7 +341,7 @@ pub fn replay(run: &mut Run, phase: &str, case: &serde_json::Value) -> Result<()
 }
 
 pub const LEVEL: &str = "exploration";
-pub const RULE: &str = "histories: case = tape of 1..2 short data blocks x history of 1..25 commands over {play, stop, rewind, advance n T-states} with n from 1 to 12 M so that commands land mid-pilot, mid-sync, mid-byte, in the pause and after the end, incl. stop-stop-play, play-play and rewind while playing/stopped; the pulse generator is driven through the hook re-export in steps of 1..16 T. Oracle: deck model — no EAR edge while stopped; the edge stream over *playing time* is cut at every rewind and after every complete pass, and each piece must be a prefix of the nominal waveform of the whole tape (clean pilot of the right length, sync, every bit pulse within nominal..nominal+32, pauses), so blocks appear once and in order and a stop/play pair neither loses nor repeats a pulse; a new pass after the end needs a play command. long-block-histories: the same oracle over tapes of 1..3 blocks of 0..420 bytes (lengths around the 128-byte multiples of the read buffer of the player, data and header flags), histories of 1..17 commands with advances that land inside the data bytes, steps of 7/13/16 T. non-trivial = history with a stop->play resume, a double stop, a play after end-of-tape or a rewind after playing started, and at least one edge observed; distinct = hash of the case";
+pub const RULE: &str = "histories: case = tape of 1..2 short data blocks x history of 1..25 commands over {play, stop, rewind, advance n T-states} with n from 1 to 12 M so that commands land mid-pilot, mid-sync, mid-byte, in the pause and after the end, incl. stop-stop-play, play-play and rewind while playing/stopped; the pulse generator is driven through the hook re-export in steps of 1..16 T; the tape asset delivers everything at once or in short reads, and in a fifth of the cases the host has consumed the first bytes of the file before handing it over and starts with a rewind. Oracle: deck model — no EAR edge while stopped; the edge stream over *playing time* is cut at every rewind and after every complete pass, and each piece must be a prefix of the nominal waveform of the whole tape (clean pilot of the right length, sync, every bit pulse within nominal..nominal+32, pauses), so blocks appear once and in order and a stop/play pair neither loses nor repeats a pulse; a new pass after the end needs a play command. long-block-histories: the same oracle over tapes of 1..3 blocks of 0..420 bytes (lengths around the 128-byte multiples of the read buffer of the player, data and header flags), histories of 1..17 commands with advances that land inside the data bytes, steps of 7/13/16 T. non-trivial = history with a stop->play resume, a double stop, a play after end-of-tape or a rewind after playing started, and at least one edge observed; distinct = hash of the case";
 pub const ASSUMPTIONS: &[&str] = &[
     "a change of the idle EAR level caused by rewind itself is not counted as a waveform edge",
     "first phase: tapes are short (pilot lengths dominate cost) with data-flag blocks only; long blocks and header-flag blocks are in the second phase with fewer cases",
